@@ -127,7 +127,33 @@ def run(cfg):
     ob('R2', h.name, h.loc, okp, 'daysInMonth() does not combine sDaysInMonth[month-1] with the leap February')
     onedays(R, lib, ob)
     localtime_pairing(R, lib, ob)
+    floor_rule(R, lib, ob)
     return R
+
+
+def floor_rule(R, lib, ob):
+    """epoch seconds -> epoch days is a floor division written with truncating '/': (es < 0) ? (es + 1) / 86400 - 1 : es / 86400,
+    in both LocalDate::forEpochSeconds and LocalDateTime::forEpochSeconds."""
+    from .rules_C05 import _days_expr
+    R.rule('R6', 'epoch seconds -> epoch days is the floor quotient by 86400 (truncating division corrected for negative values)', floor=2)
+    for q in ('ace_time::LocalDate::forEpochSeconds', 'ace_time::LocalDateTime::forEpochSeconds'):
+        f = lib.fn(q)
+        qe = _days_expr(f)
+        E_ = Poly.atom(('sym', f.params[0][0]))
+        ok = False
+        why = 'no "days" quotient found'
+        if qe is not None:
+            why = 'quotient is %r' % qe
+            at = qe.atoms()
+            if len(qe.t) == 1 and len(at) == 1:
+                a = next(iter(at))
+                if a[0] == 'cond':
+                    cnd, neg, pos = _P(a[1]), _P(a[2]), _P(a[3])
+                    want_c = Poly.atom(('cmp', '<', E_.key(), Poly.const(0).key()))
+                    ok = (cnd == want_c and pos == Poly.atom(('tdiv', E_.key(), Poly.const(86400).key())) and
+                          neg == Poly.atom(('tdiv', (E_ + Poly.const(1)).key(), Poly.const(86400).key())) - Poly.const(1))
+        ob('R6', f.name, f.loc, ok, why + ', not (es < 0) ? (es + 1) / 86400 - 1 : es / 86400: for a negative multiple of 86400 (midnight before 2000) '
+           'the truncating quotient is already the floor and subtracting one lands on the previous day')
 
 
 def localtime_pairing(R, lib, ob):
@@ -162,7 +188,9 @@ def localtime_pairing(R, lib, ob):
     ok = any(kind == 'return' and res is not None and _P(res) == H * Poly.const(3600) + M * Poly.const(60) + Sx for gd, kind, res, eff in s.paths)
     ob('R5', g.name, g.loc, ok, 'toSeconds() is not (hour*60 + minute)*60 + second on the valid path')
     e = lib.fn('ace_time::LocalTime::isError')
-    s = SymExec(fold_global=lib.global_value).run(e.name, e.body, {})
+    sx = SymExec(fold_global=lib.global_value)
+    sx.bool_return = True
+    s = sx.run(e.name, e.body, {})
     # the non-error paths must imply second < 60, minute < 60, hour <= 24 (and 24:00:00 only)
     from .gnf import eval_formula
     bad = []
@@ -171,20 +199,15 @@ def localtime_pairing(R, lib, ob):
             for ss in (0, 59, 60, 255):
                 def assign(a, hh=hh, mm=mm, ss=ss):
                     return {('sym', 'this.mHour'): hh, ('sym', 'this.mMinute'): mm, ('sym', 'this.mSecond'): ss}.get(a)
-                val = None
+                vals = set()
                 for gd, kind, res, eff in s.paths:
                     try:
                         if eval_formula(gd, assign):
-                            if res is not None and _P(res).is_const():
-                                val = bool(_P(res).const_value())
-                            else:
-                                # boolean expression result: evaluate its comparison atoms
-                                from .gnf import eval_poly
-                                val = None
+                            vals.add(bool(_P(res).const_value()) if res is not None and _P(res).is_const() else None)
                     except KeyError:
-                        val = None
+                        vals.add(None)
                 valid = ss < 60 and mm < 60 and (hh < 24 or (hh == 24 and mm == 0 and ss == 0))
-                if val is not None and val != (not valid):
+                if vals != {not valid}:
                     bad.append((hh, mm, ss))
     ob('R5', e.name, e.loc, not bad, 'isError() misclassifies (hour, minute, second) in %s' % bad[:4])
 
@@ -264,6 +287,10 @@ def onedays(R, lib, ob):
 
 
 SELFTEST = [
+    dict(id='floor-division-negative-midnight', file='src/ace_time/LocalDate.h', regex=True,
+         find=r'\? \(epochSeconds \+ 1\) / 86400 - 1', replace='? epochSeconds / 86400 - 1', rule='R6', construct='LocalDate::forEpochSeconds'),
+    dict(id='iserror-hour24-and', file='src/ace_time/LocalTime.h', find='        return mSecond != 0 || mMinute != 0;', replace='        return mSecond != 0 && mMinute != 0;', rule='R5', construct='isError'),
+    dict(id='iserror-spelling-silent', file='src/ace_time/LocalTime.h', find='        return mSecond != 0 || mMinute != 0;', replace='        return !(mSecond == 0 && mMinute == 0);', expect='silent'),
     dict(id='localtime-minute-from-seconds', file='src/ace_time/LocalTime.h', find='        minute = minutes % 60;', replace='        minute = seconds % 60;', rule='R5'),
     dict(id='localtime-recomposition', file='src/ace_time/LocalTime.h', find='return ((mHour * (int16_t) 60) + mMinute)', replace='return ((mHour * (int16_t) 24) + mMinute)', rule='R5'),
     dict(id='leap-century-rule-dropped', file='src/ace_time/LocalDate.h',
